@@ -183,9 +183,13 @@ func (c16) Run(c Tok) Tok {
 	case 5:
 		// every returned value is overwritten by the caller right after delivery: what later calls return (this
 		// Demuxer's and, in the next case of the run, any other Demuxer's) must not depend on it
+		// (run once before and once after without overwriting anything: all three runs must agree)
+		before := runScenario(scenarioOf(c.At(1))).observation()
 		scenarioScribble = func(v interface{}) { scribble(reflect.ValueOf(v), 0) }
-		defer func() { scenarioScribble = nil }()
-		return runScenario(scenarioOf(c.At(1))).observation()
+		during := runScenario(scenarioOf(c.At(1))).observation()
+		scenarioScribble = nil
+		after := runScenario(scenarioOf(c.At(1))).observation()
+		return L(before, during, after)
 	case 1:
 		scenarioAfterCall = func() { astits.VerifPoisonBytesPool(4, 4096, 0xa5) }
 		defer func() { scenarioAfterCall = nil }()
@@ -340,6 +344,13 @@ func (c16) Oracle(c Tok, obs Tok) string {
 	case 2:
 		if obs.At(1).Int() != 1 {
 			return "the Muxer modified the caller's payload bytes"
+		}
+	case 5:
+		if obs.At(0).String() != obs.At(1).String() {
+			return "a Demuxer whose caller overwrites the values it was handed returns different results from then on"
+		}
+		if obs.At(0).String() != obs.At(2).String() {
+			return "after a caller overwrote the values it was handed, a NEW Demuxer on the same input returns different results (state shared by the Demuxers of the process)"
 		}
 	case 4:
 		a, b := obs.At(0), obs.At(1)
